@@ -7,7 +7,7 @@ deliberately wrong decompositions (built with the real API) must each yield a co
 import json
 import os
 
-from harness import grammar, render, tlc
+from harness import build, grammar, render, tlc
 from harness.common import Report, import_hpl, rng, tier
 from harness.drive import call_parser, exc_name
 from harness.project import project
@@ -46,6 +46,7 @@ def run(replay=None):
     sents, r = grammar.enumerate_shapes('mon')
     rep.add_tlc(r)
     props = []
+    nder = 0
     for x in sents:
         toks, _ = render.substitute(x)
         text = ' '.join(toks)
@@ -61,6 +62,18 @@ def run(replay=None):
             rep.skip('canonical_form:' + exc_name(e))
             continue
         props.append({'text': text, 'orig': project(p, ids=False), 'parts': [project(q, ids=False) for q in parts]})
+        # the same property with its disjunctions replaced by copies-with-changes of themselves (after they were used)
+        if len(parts) > 1 and (thorough or len(props) % 3 == 0):
+            try:
+                pd = build.derive_disjunctions(p, ['x3', 'x2', 'x1', 'y'])
+                if pd is not None:
+                    parts2 = canonical_form(pd)
+                    props.append({'text': text + '   [an alternative moved to another channel through but()]', 'orig': project(pd, ids=False),
+                                  'parts': [project(q, ids=False) for q in parts2]})
+                    nder += 1
+            except Exception as e:  # noqa
+                rep.skip('derived:' + exc_name(e))
+    rep.count('properties_with_derived_disjunctions', nder)
     rep.count('properties', len(props))
     rep.count('properties_split', sum(1 for p in props if len(p['parts']) > 1))
     os.makedirs(tlc.BUILD, exist_ok=True)
